@@ -43,12 +43,14 @@ pub enum FailKind {
     PanicAfterDrop,
     /// panic after building the output (and dropping the input)
     PanicAfterBuild,
+    /// panic after modifying the previous output
+    PanicAfterPrevModified,
 }
 
 #[derive(Clone, Debug, Serialize, Deserialize, PartialEq, Eq, Hash)]
 pub struct Scenario {
     pub pair: u8,
-    pub spare: u8,
+    pub spare: u16,
     pub actions: Vec<Action>,
     /// use `try_convert_vec_in_place` (else `convert_vec_in_place`)
     pub try_entry: bool,
@@ -101,6 +103,13 @@ fn converter<T: Elem, U: Elem>(t: T, prev: Option<&mut U>) -> Result<VecElementC
             let _keep = out;
             panic_any(Payload(0xB1_0000 + index as u64))
         }
+        Some(FailKind::PanicAfterPrevModified) => {
+            if let Some(u) = prev {
+                let v = u.val();
+                u.set_val(v.wrapping_add(0x5A5A));
+            }
+            panic_any(Payload(0xAB_0000 + index as u64))
+        }
         Some(FailKind::ErrRet) => return Err(ErrTok(0xE0_0000 + index as u64)),
         None => {}
     }
@@ -128,6 +137,7 @@ fn expected_payload(index: usize, kind: FailKind) -> u64 {
             FailKind::PanicAfterDrop => 0xD0_0000,
             FailKind::PanicAfterBuild => 0xB1_0000,
             FailKind::ErrRet => 0xE0_0000,
+            FailKind::PanicAfterPrevModified => 0xAB_0000,
         }
 }
 
@@ -329,6 +339,7 @@ fn run_pair<T: Elem, U: Elem>(sc: &Scenario) -> Result<Stats, Failure> {
             stats.labels.push(match kind {
                 FailKind::PanicBefore => "panic_before",
                 FailKind::PanicAfterDrop => "panic_after_drop",
+                FailKind::PanicAfterPrevModified => "panic_after_prev_modified",
                 _ => "panic_after_build",
             });
         }
@@ -402,14 +413,16 @@ macro_rules! dispatch_pair {
             7 => $f::<TokBox, TokBox2>($arg),
             8 => $f::<Plain8, TokA>($arg),
             9 => $f::<TokA, Plain8>($arg),
-            _ => $f::<Plain8, Plain8b>($arg),
+            10 => $f::<Plain8, Plain8b>($arg),
+            11 => $f::<Huge2K, Huge2Kb>($arg),
+            _ => $f::<Al256, Al256b>($arg),
         }
     };
 }
-pub const PAIR_N: u8 = 11;
-pub const PAIR_NAMES: [&str; 11] = [
+pub const PAIR_N: u8 = 13;
+pub const PAIR_NAMES: [&str; 13] = [
     "pair_TokA_TokA", "pair_TokA_TokB", "pair_String_VecU8", "pair_zst_drop", "pair_unit", "pair_big", "pair_align64",
-    "pair_box", "pair_plain_to_droppable", "pair_droppable_to_plain", "pair_plain_to_plain",
+    "pair_box", "pair_plain_to_droppable", "pair_droppable_to_plain", "pair_plain_to_plain", "pair_2k", "pair_align256",
 ];
 
 pub fn check_scenario(sc: &Scenario) -> Result<Stats, Failure> {
@@ -438,7 +451,7 @@ pub fn actions_strategy() -> impl Strategy<Value = Vec<Action>> {
         12 => prop::collection::vec(action_strategy(), 2..40),
         1 => prop::collection::vec(action_strategy(), 40..80),
         // long vectors (above 64 and above 1024 elements), rarely
-        1 => prop::collection::vec(action_strategy(), 80..200).prop_flat_map(|v| (Just(v), 1usize..12)).prop_map(|(v, times)| {
+        1 => prop::collection::vec(action_strategy(), 80..200).prop_flat_map(|v| (Just(v), prop_oneof![6 => 1usize..12, 1 => 25usize..60])).prop_map(|(v, times)| {
             let mut out = Vec::with_capacity(v.len() * times);
             for _ in 0..times {
                 out.extend(v.iter().copied());
@@ -451,14 +464,15 @@ pub fn actions_strategy() -> impl Strategy<Value = Vec<Action>> {
 pub fn scenario_strategy(with_failure: bool) -> impl Strategy<Value = Scenario> {
     (
         0u8..PAIR_N,
-        0u8..9,
+        prop_oneof![20 => 0u16..9, 1 => 1000u16..6000],
         actions_strategy(),
         any::<bool>(),
         (any::<u16>(), prop_oneof![
             Just(FailKind::ErrRet),
             Just(FailKind::PanicBefore),
             Just(FailKind::PanicAfterDrop),
-            Just(FailKind::PanicAfterBuild)
+            Just(FailKind::PanicAfterBuild),
+            Just(FailKind::PanicAfterPrevModified)
         ]),
     )
         .prop_map(move |(pair, spare, actions, try_entry, failure)| Scenario {
@@ -641,6 +655,8 @@ pub fn enumerate(prop: &str, max_len: usize) -> (Outcome, u64) {
                             (false, FailKind::PanicBefore),
                             (false, FailKind::PanicAfterDrop),
                             (false, FailKind::PanicAfterBuild),
+                            (true, FailKind::PanicAfterPrevModified),
+                            (false, FailKind::PanicAfterPrevModified),
                         ] {
                             // selector that maps to p
                             let sel = (((p as u32) << 16) / len as u32 + 1).min(65535) as u16;
@@ -651,12 +667,12 @@ pub fn enumerate(prop: &str, max_len: usize) -> (Outcome, u64) {
                             while pick(sel, len) < p {
                                 sel += 1;
                             }
-                            scenarios.push(Scenario { pair, spare: (len % 3) as u8, actions: actions.clone(), try_entry, failure: Some((sel, kind)) });
+                            scenarios.push(Scenario { pair, spare: (len % 3) as u16, actions: actions.clone(), try_entry, failure: Some((sel, kind)) });
                         }
                     }
                 } else {
                     for try_entry in [false, true] {
-                        scenarios.push(Scenario { pair, spare: (len % 3) as u8, actions: actions.clone(), try_entry, failure: None });
+                        scenarios.push(Scenario { pair, spare: (len % 3) as u16, actions: actions.clone(), try_entry, failure: None });
                     }
                 }
                 for sc in scenarios {
